@@ -439,18 +439,22 @@ let predict (c : string) (obs : string) : string * string * bool =
        | f -> (build_fail f, "ok", false))
   | ["iter"; g; per; len; _rounds] ->
       let g = int_of_string g and per = int_of_string per and len = int_of_string len in
-      let sg = bs ".source.users[next]" in
-      let tr = List.concat_map (fun t -> List.init per (fun _ -> (nat_of_int t, sg))) (seq 0 g) in
+      (* three lists called `users` under different parents, lengths len, len+1, len+2; goroutine t
+         uses list (j+t) mod 3 in its j-th evaluation; any interleaving gives the same counts *)
+      let keys = [| bs ".source.users[next]"; bs ".source.eu.users[next]"; bs ".source.us.users[next]" |] in
+      let tr = List.concat_map (fun t -> List.init per (fun j -> (nat_of_int t, keys.((j + t) mod 3)))) (seq 0 g) in
       let (out, _) = it_run [] tr in
-      let counts = Array.make len 0 in
+      let counts = Array.init 3 (fun p -> Array.make (len + p) 0) in
       let bad = ref false in
-      List.iter (fun ((_, _), v) ->
-          match next_row (nat_of_int len) v with
-          | NxRow i -> let i = int_of_nat i in counts.(i) <- counts.(i) + 1
+      List.iter (fun ((_, k), v) ->
+          let p = if k = keys.(0) then 0 else if k = keys.(1) then 1 else 2 in
+          match next_row (nat_of_int (len + p)) v with
+          | NxRow i -> let i = int_of_nat i in counts.(p).(i) <- counts.(p).(i) + 1
           | NxPanic -> bad := true) out;
-      let p = Printf.sprintf "1 1 startups=1 errs=0 rows=%s" (String.concat "," (Array.to_list (Array.map string_of_int counts))) in
+      let p = Printf.sprintf "1 1 startups=1 errs=0 rows=%s"
+          (String.concat ";" (Array.to_list (Array.map (fun c -> String.concat "," (Array.to_list (Array.map string_of_int c))) counts))) in
       let p = if !bad then "model-panic" else p in
-      (p, verdict (obs = p) "counter values are not 0..E-1 / rows not round-robin", g > 1)
+      (p, verdict (obs = p) "counter values are not 0..E-1 / rows of a list not round-robin (per list, several lists of the same name)", g > 1)
   | _ -> ("unknown-case", "BAD:unknown-case", false)
 
 let () = run_cases predict
